@@ -242,23 +242,31 @@ class Locals:
         for x in walk(root):
             if x["k"] == "Path" and x.get("rk") == "Local" and "ty" in x:
                 self.types.setdefault(x["res"], x["ty"])
-            if x["k"] == "LetE":
-                p = x["pat"]
-                while p["k"] == "PRef":
-                    p = p["sub"]
-                if p["k"] == "PTS" and len(p.get("subs", [])) == 1:
-                    b = p["subs"][0]
-                    while b["k"] == "PRef":
-                        b = b["sub"]
-                    if b["k"] == "Bind" and "sub" not in b:
-                        self.payload_defs[b["id"]] = x["init"]
-            if x["k"] == "Match":
-                for a in x["arms"]:
-                    p = a["pat"]
+            def payload_binder(p):
+                """the single binding at the bottom of a chain of one-field variant patterns: Some(x), Ok(x), Some(Ok(x))"""
+                depth = 0
+                while True:
                     while p["k"] == "PRef":
                         p = p["sub"]
-                    if p["k"] == "PTS" and len(p.get("subs", [])) == 1 and p["subs"][0]["k"] == "Bind" and "sub" not in p["subs"][0]:
-                        self.payload_defs[p["subs"][0]["id"]] = x["scrut"]
+                    if p["k"] == "PTS" and len(p.get("subs", [])) == 1:
+                        p = p["subs"][0]
+                        depth += 1
+                        continue
+                    if p["k"] == "PStruct" and len(p.get("fields", [])) == 1:
+                        p = p["fields"][0]["pat"]
+                        depth += 1
+                        continue
+                    break
+                return p if depth and p["k"] == "Bind" and "sub" not in p else None
+            if x["k"] == "LetE":
+                b = payload_binder(x["pat"])
+                if b is not None:
+                    self.payload_defs[b["id"]] = x["init"]
+            if x["k"] == "Match":
+                for a in x["arms"]:
+                    b = payload_binder(a["pat"])
+                    if b is not None:
+                        self.payload_defs[b["id"]] = x["scrut"]
             if x["k"] == "Let" and x["pat"]["k"] == "Bind" and "init" in x and "sub" not in x["pat"]:
                 i = x["pat"]["id"]
                 if i in self.defs:
